@@ -370,6 +370,10 @@ theorem rebuild_spec {K : Nat} : ∀ (v : View) (old : RState) (s : St), RInv K 
     | either e c' a' b' left inner => exact replace_spec hi hw hc (vo := .either c a b) hg hw hc
     | _ => simp only [GoodP] at hg
   | «show» c a b _ _ => intro old s _ _ _ hc; simp [View.core] at hc
-  | forKeyed sel lists => intro old s _ _ _ hc; simp [View.core] at hc
+  | forKeyed sel lists =>
+    intro old s hi hg hw hc _
+    cases old with
+    | forK e sel' lists' ks texts => exact replace_spec hi hw hc (vo := .forKeyed sel lists) hg hw hc
+    | _ => simp only [GoodP] at hg
 
 end Leptos.RView
